@@ -57,13 +57,18 @@ def run(res, f, tier):
             res.violation(key, what, detail)
 
     # the constant folder: the crate-local free function (Expr) -> Result<Value, _> (today `flatten`)
-    folders = [d for d, b in f.bodies.items() if b["kind"] == "Fn" and not b.get("parent") and b["arg_count"] == 1
-               and f.ty_s(b["locals"][1]["ty"]) == EXPR and f.ty_s(b["locals"][0]["ty"]).startswith("std::result::Result<value::Value,")
-               and not d.startswith("parse::reval::")]
+    folders = [d for d, b in f.bodies.items() if b["kind"] in ("Fn", "AssocFn") and not b.get("parent") and b["arg_count"] == 1
+               and f.ty_s(b["locals"][1]["ty"]) == EXPR
+               and (f.ty_s(b["locals"][0]["ty"]).startswith("std::result::Result<value::Value,") or f.ty_s(b["locals"][0]["ty"]) == "std::option::Option<value::Value>")
+               and "parse::reval::" not in d and "parse::" in d]
     if len(folders) != 1:
-        raise Inconclusive("the constant folder (a function Expr -> Result<Value, _>) was not found: %s" % folders)
+        raise Inconclusive("the constant folder (a function Expr -> Result<Value, _> or Option<Value> in the parser) was not found: %s" % folders)
     flatten = folders[0]
     FS = short_callee(flatten)
+    # the folder says "not a constant" either with an error or with None
+    optional = f.ty_s(f.bodies[flatten]["locals"][0]["ty"]).startswith("std::option::Option<")
+    OKW = "Some" if optional else "Ok"
+    REJ_ITEM = "Option::None" + "%.0s" if optional else "Err(%s)"
     import c17
 
     def element_fn_ok(spec_, pair):
@@ -78,12 +83,27 @@ def run(res, f, tier):
                 return False
             o_, _ = evalsum.summarize_fn(f, target[0], arg_names=["kv"], opaque=lambda p: p == flatten)
             rows_ = sorted((c, r) for c, r, _, _ in o_)
-            return rows_ == sorted([(((FS + "(kv.1)", "fails"),), "Err(%s!err(kv.1))" % FS), (((FS + "(kv.1)", "ok"),), "Ok(tuple(kv.0, %s!(kv.1)))" % FS)])
+            return rows_ == sorted([(((FS + "(kv.1)", "fails"),), REJ_ITEM % (FS + "!err(kv.1)")), (((FS + "(kv.1)", "ok"),), OKW + "(tuple(kv.0, %s!(kv.1)))" % FS)])
         if m_cl:
-            cs = closure_summary_opaque(f, m_cl.group(1).split(",")[0], flatten)
+            cpath = m_cl.group(1)
+            if cpath not in f.bodies:
+                # `closure(path, captures...)`: the path itself may contain commas inside generic arguments
+                depth_, cut = 0, len(cpath)
+                for i_, ch in enumerate(cpath):
+                    if ch in "<([{":
+                        depth_ += 1
+                    elif ch in ">)]}" and not cpath[i_ - 1:i_] == "-":
+                        depth_ -= 1
+                    elif ch == "," and depth_ == 0:
+                        cut = i_
+                        break
+                cpath = cpath[:cut]
+            if cpath not in f.bodies:
+                return False
+            cs = closure_summary_opaque(f, cpath, flatten)
             if not pair:
                 return cs in ([((), "%s(e)" % FS)],)
-            return cs == sorted([(((FS + "(e1)", "fails"),), "Err(%s!err(e1))" % FS), (((FS + "(e1)", "ok"),), "Ok(tuple(e0, %s!(e1)))" % FS)])
+            return cs == sorted([(((FS + "(e1)", "fails"),), REJ_ITEM % (FS + "!err(e1)")), (((FS + "(e1)", "ok"),), OKW + "(tuple(e0, %s!(e1)))" % FS)])
         return False
 
     # ---- constants only, all shapes: tag table of the folder over the 47 node kinds
@@ -97,7 +117,7 @@ def run(res, f, tier):
         rows = sorted((tuple(sorted(norm_cond(c) for c in s.conds)), show(norm(it.resolve(s, rv)))) for s, rv in it.run(flatten, [v], st))
         k = var["name"]
         if k == "Value":
-            good = rows == [((), "Ok(e.Value.0)")]
+            good = rows == [((), OKW + "(e.Value.0)")]
         elif k in ("Vec", "Map"):
             # Ok(<Vec|Map>(collect of the folded items)) or the first folding error
             good = False
@@ -106,10 +126,10 @@ def run(res, f, tier):
                 mm_ = re.fullmatch(r"\w+::collect\(\w+::map\(into_iter\(e\.%s\.0\), (.+)\)\)" % k, C)
                 byc = dict((c[0][1], r) for c, r in rows)
                 okr = byc.get("ok", "")
-                good = bool(mm_) and element_fn_ok(mm_.group(1), k == "Map") and byc.get("fails") == "Err(%s)" % C.replace("collect(", "collect!err(", 1) \
-                    and okr in ("Ok(%s(%s))" % (k, C.replace("collect(", "collect!(", 1)),)
+                good = bool(mm_) and element_fn_ok(mm_.group(1), k == "Map") and byc.get("fails") == REJ_ITEM % C.replace("collect(", "collect!err(", 1) \
+                    and okr in ("%s(%s(%s))" % (OKW, k, C.replace("collect(", "collect!(", 1)),)
         else:
-            good = len(rows) == 1 and not rows[0][0] and re.fullmatch(r"Err\(\w+\)", rows[0][1]) is not None
+            good = len(rows) == 1 and not rows[0][0] and (rows[0][1] == "Option::None" if optional else re.fullmatch(r"Err\(\w+\)", rows[0][1]) is not None)
             if good:
                 reject.add(rows[0][1])
         ob(good, "C14|flatten|%s" % k, "constant folding of a %s node: a literal folds to its value, a list / map folds item by item (first failure wins), "
@@ -118,128 +138,229 @@ def run(res, f, tier):
             samples.append({"flatten": k, "outcomes": [r for _, r in rows]})
     ob(len(reject) == 1, "C14|flatten|rejection", "every non-constant node must be rejected with the same error: %s" % sorted(reject))
     res.floor("node kinds folded", nkinds, 47)
-    # ---- metadata table: one item, every (key is name?, folding outcome)
-    parse = find1(f, "parse", "RuleBuilder")
-    b = f.bodies[parse]
-    it = Interp(f, opaque=lambda p: p == flatten, loop_bound=1)
-    st = State()
-    paths = it.run(parse, [("sym", "meta"), ("sym", "expr")], st)
-    SRC = "into_iter(meta)"
-    K, V = "elem0(%s).0" % SRC, "elem0(%s).1" % SRC
-    ISNAME = "str::eq(String::index(%s, RangeFull), 'name')" % K
-    FL = "%s(%s)" % (FS, V)
-    seen = {}
-    for s, rv in paths:
-        conds = dict(norm_cond(c) for c in s.conds)
-        ret = show(norm(it.resolve(s, rv)))
-        if "loop_bound_hit" in s.flags and conds.get("next(%s, #1)" % SRC) is None and conds.get("next(%s, #0)" % SRC) == "ok" and not ret.startswith("Err("):
-            pass
-        if conds.get("next(%s, #0)" % SRC) == "fails":
-            seen["empty"] = ret
-            continue
-        # the test "is this key `name`?" in whatever spelling (`match &key[..] { "name" => ..}`, `key == NAME_META`):
-        # the one condition that compares the item's key with the constant 'name'
-        isname = conds.get(ISNAME)
-        if isname is None:
-            cand = [v_ for k_, v_ in conds.items() if K in k_ and "'name'" in k_ and "::eq" in k_]
-            isname = cand[0] if len(cand) == 1 else None
-        fl = conds.get(FL)
+    # ---- assembly of the rule, end to end: Rule::parse is summarised with the generated parser replaced by "a syntax
+    # error, or the builder the grammar's Rule action makes of these metadata items and this expression" (the function
+    # (Vec<(String, Expr)>, Expr) -> Result<builder, _> run on a known list of 0 / 1 / 2 items with symbolic keys and
+    # values, the constant folder opaque).  What comes out is the finished Rule (or the error) as a function of the
+    # items, the comment lines and the expression — whatever types and helper functions carry the data in between.
+    rp = evalsum.find_by_name(f, "parse", "ruleset::rule::Rule")
+    if len(rp) != 1:
+        raise Inconclusive("Rule::parse not found")
+    makers = [d for d, b in f.bodies.items() if b["kind"] in ("Fn", "AssocFn") and not b.get("parent") and b["arg_count"] == 2
+              and f.ty_s(b["locals"][1]["ty"]) == "std::vec::Vec<(std::string::String, expr::Expr)>" and f.ty_s(b["locals"][2]["ty"]) == EXPR
+              and f.ty_s(b["locals"][0]["ty"]).startswith("std::result::Result<") and not d.startswith("parse::reval::")]
+    rparser = [d for d in f.bodies if d.endswith("::RuleParser::parse") and d.startswith("parse::reval::")]
+    if len(makers) != 1 or len(rparser) != 1:
+        raise Inconclusive("the builder constructor (Vec<(String, Expr)>, Expr) -> Result<_, _> / the generated RuleParser::parse were not found: %s %s" % (makers, rparser))
+    rule_adt = f.adts.get("ruleset::rule::Rule")
+    if not rule_adt:
+        raise Inconclusive("Rule type not found")
+    rfields = rule_adt["variants"][0]["fields"]
+    def field_of(pred, what):
+        c = [i for i, fl in enumerate(rfields) if pred(re.sub(r"'\w+ ", "", fl.get("ty_s", "")))]
+        if len(c) != 1:
+            raise Inconclusive("Rule has no single %s field" % what)
+        return c[0]
+    I_NAME = field_of(lambda t: t == "std::string::String", "String (name)")
+    I_META = field_of(lambda t: t.startswith("std::collections::BTreeMap<std::string::String, value::Value"), "metadata map")
+    I_EXPR = field_of(lambda t: t == EXPR, "expression")
+
+    def top_args(t):
+        inner = t[t.index("(") + 1:-1]
+        out, depth, cur = [], 0, ""
+        for ch in inner:
+            if ch in "([":
+                depth += 1
+            elif ch in ")]":
+                depth -= 1
+            if ch == "," and depth == 0:
+                out.append(cur.strip())
+                cur = ""
+            else:
+                cur += ch
+        if cur.strip():
+            out.append(cur.strip())
+        return out
+
+    def assemble(n_items):
+        def model(self, st, fn, args, depth, stack):
+            R_ = self.RESULT
+            out = []
+            s_err = st.fork()
+            s_err.conds.append((("call", "RuleParser::parse", (("sym", "input"),)), "is", "Err"))
+            out.append((s_err, self.mk(R_, "Err", ("sym", "syntax_error"))))
+            s_ok = st.fork()
+            s_ok.conds.append((("call", "RuleParser::parse", (("sym", "input"),)), "is", "Ok"))
+            meta = ("op", "array", tuple(("tup", (("sym", "K%d" % i), ("sym", "V%d" % i))) for i in range(n_items)))
+            fnd = {"path": makers[0], "full": makers[0], "name": f.bodies[makers[0]]["name"], "local": True, "resolved": makers[0], "resolved_local": True, "args": []}
+            for s2, rv in self.call_fn(s_ok, fnd, [meta, ("sym", "expr")], depth, stack):
+                for s3, var, pl in self.cases(s2, rv, R_):
+                    out.append((s3, self.mk(R_, "Ok", pl[0]) if var == "Ok" else self.mk(R_, "Err", ("op", "user_error", (pl[0],)))))
+            return out
+        it_ = Interp(f, opaque=lambda p: p == flatten, loop_bound=2, max_paths=60000, models={rparser[0]: model})
+        rows_ = []
+        for s, rv in it_.run(rp[0], [("sym", "input")], State()):
+            conds = dict(norm_cond(c) for c in s.conds)
+            nexts = [(e[0], show(norm(e[1])), e[2]) for e in s.events if e[0] in ("iter_next", "iter_end")]
+            rows_.append((conds, nexts, show(norm(it_.resolve(s, rv))), set(s.flags)))
+        return rows_
+
+    def item_facts(conds, i):
+        """('name' | 'other' | None, 'err' | 'ok' | 'ok:<Tag>' | None) of metadata item i on this path"""
+        K, V = "K%d" % i, "V%d" % i
+        cand = [v_ for k_, v_ in conds.items() if re.search(r"\b%s\b" % K, k_) and "'name'" in k_ and ("::eq" in k_ or "::ne" in k_ or k_.startswith(("Eq(", "key_eq(")))]
+        isname = None
+        if len(cand) == 1:
+            neg = [k_ for k_ in conds if re.search(r"\b%s\b" % K, k_) and "'name'" in k_][0]
+            truth = cand[0] == "val not:0"
+            if "::ne" in neg:
+                truth = not truth
+            isname = "name" if truth else "other"
+        fl = conds.get("%s(%s)" % (FS, V))
         tag = conds.get("%s!(%s)" % (FS, V), "")
-        outcome = "err" if fl == "fails" else ("ok:" + tag[3:] if tag else "ok")
-        # a path that decides without asking whether the key is `name` holds for both kinds of key
-        for kname in (("name", "other") if isname is None else (("name",) if isname == "val not:0" else ("other",))):
-            seen.setdefault((kname, outcome), set()).add(ret)
-    ob(seen.get("empty") == "Ok(RuleBuilder(Option::None, expr, BTreeMap::new()))", "C14|meta|none", "without metadata the rule builder must start with no name and no metadata: %s" % seen.get("empty"))
-    ob(seen.get(("name", "ok:String")) == {"Ok(RuleBuilder(Some(%s!(%s).String.0), expr, BTreeMap::new()))" % (FS, V)}, "C14|meta|name-string",
-       "@name with a string constant must become the rule name: %s" % seen.get(("name", "ok:String")))
+        fold = None if fl is None else ("err" if fl == "fails" else ("ok:" + tag[3:] if tag.startswith("is ") else "ok"))
+        return isname, fold
+
+    problems = []
+    classes = set()
+    FOK = lambda i: "%s!(V%d)" % (FS, i)
+    for n_items in (0, 1, 2):
+        for conds, nexts, ret, flags in assemble(n_items):
+            if conds.get("RuleParser::parse(input)") == "fails":
+                classes.add("syntax-error")
+                if not ret.startswith("Err(RuleParseError("):
+                    problems.append(("a syntax error must be reported as RuleParseError", ret[:120]))
+                continue
+            items = [item_facts(conds, i) for i in range(n_items)]
+            # the first item that is rejected ends the parse with its own error
+            rejected = None
+            for i, (isname, fold) in enumerate(items):
+                if fold == "err":
+                    rejected = (i, "InvalidMetadata(K%d)" % i)
+                    break
+                if isname == "name" and fold and fold.startswith("ok:") and fold != "ok:String":
+                    rejected = (i, "InvalidNameValue")
+                    break
+                if fold is None or (isname is None and fold != "err"):
+                    rejected = (i, None)
+                    break
+            if rejected is not None:
+                i, marker = rejected
+                if marker is None:
+                    problems.append(("the path does not decide whether item %d is @name and whether its value is a constant" % i, sorted(conds.items())[:4]))
+                    continue
+                classes.add("reject:%s:%s" % (items[i][0] or "any", marker.split("(")[0]))
+                if not (ret.startswith("Err(") and marker in ret):
+                    problems.append(("metadata item %d must be rejected with %s" % (i, marker), ret[:160]))
+                continue
+            if any(isname == "name" and fold == "ok" for isname, fold in items):
+                problems.append(("@name is accepted without looking at the kind of constant", ret[:160]))
+                continue
+            # comment lines: one iterator over the input text; how many items were drawn
+            srcs = sorted(set(n[1] for n in nexts))
+            if len(srcs) > 1 or (srcs and "input" not in srcs[0]):
+                problems.append(("comment lines must come from one iterator over the input text", srcs))
+                continue
+            SRC = srcs[0] if srcs else None
+            drawn = len([n for n in nexts if n[0] == "iter_next"])
+            E0, E1 = "elem0(%s)" % SRC, "elem1(%s)" % SRC
+            # are there comment lines after the first?  Asked by drawing a second item, or by collecting the remainder
+            # and testing it for emptiness
+            if drawn >= 2:
+                rest = True
+            elif drawn == 1:
+                empt = [v_ for k_, v_ in conds.items() if "is_empty(" in k_ and SRC in k_]
+                rest = (empt[0] == "val 0") if len(empt) == 1 else (False if not empt and conds.get("next(%s, #1)" % SRC) == "fails" else None)
+                if rest is None:
+                    problems.append(("after the first comment line the path does not establish whether more follow", sorted(conds.items())[:6]))
+                    continue
+            else:
+                rest = False
+            drew_second = drawn >= 2
+            drawn = 0 if drawn == 0 else (2 if rest else 1)
+            item0 = re.compile(r"^(?:[\w:]+\()*" + re.escape(E0) + r"\)*$")
+            meta_names = [FOK(i) + ".String.0" for i, (isname, fold) in enumerate(items) if isname == "name"]
+            # expected name
+            if meta_names:
+                want_name = lambda x: x == meta_names[-1]
+                name_src = "meta"
+            elif drawn >= 1:
+                want_name = lambda x: bool(item0.match(x))
+                name_src = "comment"
+            else:
+                classes.add("missing-name")
+                if ret != "Err(MissingRuleName)":
+                    problems.append(("text that supplies no name must be rejected with MissingRuleName", ret[:160]))
+                continue
+            if not (ret.startswith("Ok(Rule(") and ret.endswith("))")):
+                problems.append(("a rule with a name and constant metadata must be built", ret[:200]))
+                continue
+            args_ = top_args(ret[3:-1])
+            if len(args_) != len(rfields):
+                problems.append(("unexpected Rule value", ret[:200]))
+                continue
+            # expected metadata: the other items in order, then the comment description unless @description was written
+            base = "BTreeMap::new()"
+            desc_written = None     # True / False / 'depends'
+            ok_meta = True
+            for i, (isname, fold) in enumerate(items):
+                if isname != "other":
+                    continue
+                base = "insert(%s, K%d, %s)" % (base, i, FOK(i))
+            others = [i for i, (isname, _) in enumerate(items) if isname == "other"]
+            # is one of the other keys `description`?  (the paths fork on key_eq('description', Ki))
+            eqs = [conds.get("key_eq('description', K%d)" % i) for i in others]
+            written = any(e == "val not:0" for e in eqs)
+            undecided = [i for i, e in zip(others, eqs) if e is None]
+            got_meta = args_[I_META]
+            if drawn >= 2 and not written:
+                if undecided:
+                    problems.append(("with comment lines after the first, whether @description was written must decide the description", sorted(conds.items())[:6]))
+                    continue
+                md = re.fullmatch(re.escape("insert(%s, 'description', String(" % base) + r"(.*)\)\)", got_meta)
+                # every line after the first and only those: a second item drawn by hand must be part of the text
+                ok_meta = bool(md) and SRC in md.group(1) and E0 not in md.group(1) and (E1 in md.group(1) or not drew_second)
+                classes.add("description:comment")
+            else:
+                ok_meta = got_meta == base
+                if drawn >= 2:
+                    classes.add("description:meta-wins")
+            if not ok_meta:
+                problems.append(("metadata must be the @key items other than name in order (last occurrence wins), plus the comment lines after the first as "
+                                 "description unless @description was written", {"items": items, "comment_lines": drawn, "metadata": got_meta[:300]}))
+                continue
+            if not want_name(args_[I_NAME]):
+                problems.append(("the name must be @name when written, otherwise the first comment line", {"items": items, "comment_lines": drawn, "name": args_[I_NAME][:200]}))
+                continue
+            if args_[I_EXPR] != "expr":
+                problems.append(("the expression must be the one the grammar produced", args_[I_EXPR][:120]))
+                continue
+            classes.add("built:%d:%s:%d" % (n_items, name_src, min(drawn, 2)))
+            for i, (isname, fold) in enumerate(items):
+                classes.add("item:%s:%s" % (isname, fold))
+            if len(samples) < 6 and n_items == 1 and drawn == 2:
+                samples.append({"items": [list(x) for x in items], "comment_lines": drawn, "rule": ret[:260]})
+    required = {"syntax-error", "missing-name", "reject:any:InvalidMetadata", "reject:name:InvalidNameValue", "description:comment", "description:meta-wins",
+                "built:0:comment:1", "built:0:comment:2", "built:1:meta:0", "built:1:meta:1", "built:1:meta:2", "built:1:comment:1", "built:1:comment:2",
+                "built:2:meta:0", "built:2:comment:2", "item:name:ok:String", "item:other:ok"}
+    missing_classes = sorted(c for c in required if not any(x == c or (c.startswith("reject:any:") and x.split(":")[-1] == c.split(":")[-1]) for x in classes))
+    ob(not problems, "C14|assembly", "the rule Rule::parse assembles from the metadata items, the comment lines and the expression differs from the extraction rules: %s" % problems[:3],
+       {"problems": problems[:6]})
+    ob(not missing_classes, "C14|assembly-classes", "not every case of the extraction rules was found among the paths of Rule::parse: missing %s" % missing_classes,
+       {"seen": sorted(classes)})
     for t in TAGS:
-        if t == "String":
-            continue
-        ob(seen.get(("name", "ok:" + t)) == {"Err(InvalidNameValue)"}, "C14|meta|name-%s" % t, "@name with a %s constant must be rejected: %s" % (t, seen.get(("name", "ok:" + t))))
-    ob(seen.get(("name", "err")) == {"Err(InvalidMetadata(%s))" % K} and seen.get(("other", "err")) == {"Err(InvalidMetadata(%s))" % K}, "C14|meta|non-constant",
-       "a non-constant metadata value must be rejected naming its key: %s / %s" % (seen.get(("name", "err")), seen.get(("other", "err"))))
-    ob(seen.get(("other", "ok")) == {"Ok(RuleBuilder(Option::None, expr, insert(BTreeMap::new(), %s, %s!(%s))))" % (K, FS, V)}, "C14|meta|insert",
-       "every other @key must be stored under its own key with the folded constant (BTreeMap::insert: the last occurrence wins): %s" % seen.get(("other", "ok")))
-    # ---- precedence of sources
+        if t != "String":
+            ob(("reject:name:InvalidNameValue" in classes) and not any(p_[0].startswith("@name is accepted") for p_ in problems), "C14|meta|name-%s" % t, "@name with a %s constant must be rejected" % t)
+    r = rows_of_fn = None
     def rows_of(name, self_part, args):
         d = find1(f, name, self_part)
         outs, _ = evalsum.summarize_fn(f, d, arg_names=args)
         return sorted((c, r) for c, r, _, _ in outs)
-    r = rows_of("set_name", "RuleBuilder", ["self", "name"])
-    ob(r == sorted([((("self.name", "is None"),), "RuleBuilder(Some(name), self.expr, self.metadata)"), ((("self.name", "is Some"),), "self")]),
-       "C14|set_name", "the comment name applies only when @name did not set one: %s" % r)
-    r = rows_of("set_description", "RuleBuilder", ["self", "description"])
-    C = "BTreeMap::contains_key(self.metadata, 'description')"
-    ob(r == sorted([(((C, "val 0"),), "RuleBuilder(self.name, self.expr, insert(self.metadata, 'description', String(description)))"), (((C, "val not:0"),), "self")]),
-       "C14|set_description", "the comment description applies only when @description is absent: %s" % r)
-    r = rows_of("build", "RuleBuilder", ["self"])
-    ob(r == sorted([((("self.name", "is None"),), "Err(MissingRuleName)"), ((("self.name", "is Some"),), "Ok(Rule(self.name.Some.0, self.metadata, self.expr))")]),
-       "C14|build", "a rule without a name must be rejected with MissingRuleName, otherwise built from name, metadata and expression unchanged: %s" % r)
     r = rows_of("description", "ruleset::rule::Rule", ["self"])
     G = "BTreeMap::get(self.metadata, 'description')"
     good = all((ret == "Some(BTreeMap::get!(self.metadata, 'description').String.0)") == (("BTreeMap::get!(self.metadata, 'description')", "is String") in c) for c, ret in r) and \
         all(ret in ("Option::None", "Some(BTreeMap::get!(self.metadata, 'description').String.0)") for _, ret in r) and len(r) == 11
     ob(good, "C14|description", "description() must be Some exactly for a string-valued description entry: %s" % r[:3])
-    # ---- flow of the comment lines in Rule::parse: whatever iterator yields them, its FIRST item is offered as the
-    # name and the REMAINING items, joined, as the description — both unconditionally (precedence is decided in
-    # set_name / set_description, checked above); a rule without any comment line offers neither.
-    pass
-    rp = evalsum.find_by_name(f, "parse", "ruleset::rule::Rule")
-    if len(rp) != 1:
-        raise Inconclusive("Rule::parse not found")
-    opq = lambda p: any(p.endswith(x) for x in ("RuleBuilder::set_name", "RuleBuilder::set_description", "RuleBuilder::build", "RuleParser::parse", "RuleParser::new"))
-    it = Interp(f, opaque=opq, loop_bound=2)
-    paths = it.run(rp[0], [("sym", "input")], State())
-    flow_bad = []
-    classes = set()
-    for s, rv in paths:
-        conds = dict(norm_cond(c) for c in s.conds)
-        calls = [(short_callee(e[1]),) + tuple(show(norm(a)) for a in e[2]) for e in s.events if e[0] == "call"]
-        nexts = [(e[0], show(norm(e[1])), e[2]) for e in s.events if e[0] in ("iter_next", "iter_end")]
-        ret = show(norm(it.resolve(s, rv)))
-        parsed = [c for c in calls if c[0] == "RuleParser::parse"]
-        ok_parse = any(k.startswith("RuleParser::parse(") and v == "ok" for k, v in conds.items())
-        if not ok_parse:
-            classes.add("syntax-error")
-            if not ret.startswith("Err(RuleParseError("):
-                flow_bad.append(("a syntax error must be reported as RuleParseError", ret[:120]))
-            continue
-        B = parsed[0][0] + "!(" + ", ".join(parsed[0][1:]) + ")" if parsed else "?"
-        sn = [c for c in calls if c[0] == "RuleBuilder::set_name"]
-        sd = [c for c in calls if c[0] == "RuleBuilder::set_description"]
-        bd = [c for c in calls if c[0] == "RuleBuilder::build"]
-        srcs = sorted(set(n[1] for n in nexts))
-        if len(srcs) != 1 or "input" not in srcs[0]:
-            flow_bad.append(("comment lines must come from one iterator over the input text", srcs))
-            continue
-        SRC = srcs[0]
-        first = [n for n in nexts if n[0] == "iter_next" and n[2] == 0]
-        second = [n for n in nexts if n[0] == "iter_next" and n[2] == 1]
-        if not first:
-            classes.add("no-comment")
-            if sn or sd or bd != [("RuleBuilder::build", B)]:
-                flow_bad.append(("without comment lines neither a name nor a description may be offered", (sn, sd, bd)))
-            continue
-        E0, E1 = "elem0(%s)" % SRC, "elem1(%s)" % SRC
-        # the first item itself, or the first item passed through per-item adaptors (`.map(str::trim)`)
-        item0 = re.compile(r"^(?:[\w:]+\()*" + re.escape(E0) + r"\)*$")
-        if not (len(sn) == 1 and sn[0][:2] == ("RuleBuilder::set_name", B) and len(sn[0]) == 3 and item0.match(sn[0][2])):
-            flow_bad.append(("the first comment line must be offered as the name (unconditionally)", sn))
-            continue
-        cur = "RuleBuilder::set_name(%s, %s)" % (B, sn[0][2])
-        if not second:
-            classes.add("name-only")
-            if sd or bd != [("RuleBuilder::build", cur)]:
-                flow_bad.append(("a single comment line gives a name and no description", (sd, bd)))
-            continue
-        classes.add("name+description")
-        good = (len(sd) == 1 and sd[0][1] == cur and E1 in sd[0][2] and SRC in sd[0][2] and E0 not in sd[0][2]
-                and bd == [("RuleBuilder::build", "RuleBuilder::set_description(%s, %s)" % (cur, sd[0][2]))])
-        if not good:
-            flow_bad.append(("the comment lines after the first (and only those) must be joined into the description", (sd, bd)))
-    ob(not flow_bad and classes >= {"syntax-error", "no-comment", "name-only", "name+description"}, "C14|comment-flow",
-       "Rule::parse must offer the first comment line as the name and the remaining ones as the description, whatever @name/@description say: %s" % flow_bad[:3],
-       {"path_classes": sorted(classes)})
     # ---- same expression language: Rule = MetaItem* Expr with the very Expr of the stand-alone parser
     g, Pg = extracted_grammar(f)
     # the expression language itself is C07's: here `Expr` is opaque, and the rule text must be metadata items
